@@ -72,11 +72,11 @@ type dummyAddr struct{}
 func (dummyAddr) Network() string { return "mem" }
 func (dummyAddr) String() string  { return "mem" }
 
-func (pipeNetConn) LocalAddr() net.Addr                { return dummyAddr{} }
-func (pipeNetConn) RemoteAddr() net.Addr               { return dummyAddr{} }
-func (pipeNetConn) SetDeadline(time.Time) error        { return nil }
-func (pipeNetConn) SetReadDeadline(time.Time) error    { return nil }
-func (pipeNetConn) SetWriteDeadline(time.Time) error   { return nil }
+func (pipeNetConn) LocalAddr() net.Addr              { return dummyAddr{} }
+func (pipeNetConn) RemoteAddr() net.Addr             { return dummyAddr{} }
+func (pipeNetConn) SetDeadline(time.Time) error      { return nil }
+func (pipeNetConn) SetReadDeadline(time.Time) error  { return nil }
+func (pipeNetConn) SetWriteDeadline(time.Time) error { return nil }
 
 // hijackRW records the response and hands out one end of an in-memory pipe on Hijack.
 type hijackRW struct {
